@@ -16,8 +16,10 @@
    + the SendHttp(...) sequence of the stream.  Client stream i has id 2i-1, server stream j has id 2j-1.
    Request data chunk k of stream i is the integer 10i+k, response chunk k of server stream j is 130+10(j-1)+k.
 
+   Flow control is modelled towards the client (cfg.fc): per-stream and connection windows, BufferedH2Connection's parked
+   chunks / queued trailers, WINDOW_UPDATE on a stream or on the connection in either order (CWu).
    Not modelled (left to the random driver of props/C05.py, which the monitor judges all the same): several frames
-   in one delivery, flow-control windows, connection loss.                                                      *)
+   in one delivery, flow control towards the server, connection loss.                                                      *)
 EXTENDS Mon_H2Mux, TLC
 CONSTANTS N,            \* bound on the number of client streams (domain of the per-stream functions)
           Configs,      \* set of scenario configurations; Init picks one (so that one TLC run covers them all):
@@ -28,6 +30,9 @@ CONSTANTS N,            \* bound on the number of client streams (domain of the 
                         \*   late     the server preface is withheld until the server first acts
                         \*   setvals  values of later SETTINGS frames,  maxset: how many of them
                         \*   ck, sk   frame kinds the client / the server may use
+                        \*   fc       flow control towards the client, in units of one "granule" of body bytes:
+                        \*            [sw: initial stream window, cw: connection window, chunk: units per DATA chunk,
+                        \*             wus: sizes of the client's WINDOW_UPDATEs, maxwu: how many]  (sw = cw = 1000: none)
           Prov          \* Http2Client.provisional_max_concurrency (10 in the code)
 VARIABLES cfg, st, sv, mux, mon, obs
 vars == <<cfg, st, sv, mux, mon, obs>>
@@ -41,15 +46,22 @@ SetVals == cfg.setvals
 MaxSet == cfg.maxset
 CKinds == cfg.ck
 SKinds == cfg.sk
+FC == cfg.fc
+Big == 1000                    \* "the window is opened completely" (final drain)
+Rep(x, k) == [q \in 1..k |-> x]
 
 St0 == [cph |-> "idle", cn |-> 0, ctrl |-> FALSE, hs |-> FALSE, live |-> FALSE, f |-> 0,
-        cst |-> "none", sst |-> "none", rbuf |-> <<>>, rtrl |-> FALSE, cout |-> "none"]
+        cst |-> "none", sst |-> "none", rbuf |-> <<>>, rtrl |-> FALSE, cout |-> "none",
+        \* BufferedH2Connection (client side): stream window, stream_buffers[i] (SendH2Data items), stream_trailers[i],
+        \* and whether END_STREAM has really gone out
+        sw |-> 0, park |-> <<>>, ptrl |-> FALSE, cend |-> FALSE]
 Sv0 == [src |-> 0, sph |-> "none", sn |-> 0, lend |-> FALSE, prst |-> FALSE, hstate |-> "none"]
 Init == /\ cfg \in Configs
-        /\ st = [i \in CS |-> St0]
+        /\ st = [i \in CS |-> [St0 EXCEPT !.sw = cfg.fc.sw]]
         /\ sv = [j \in CS |-> Sv0]
         /\ mux = [our |-> [i \in CS |-> 0], queue |-> <<>>, nextj |-> 1, prov |-> TRUE, limit |-> NoLimit,
-                  conn |-> "none", pref |-> FALSE, nextf |-> 1, nextc |-> 1, nset |-> 0]
+                  conn |-> "none", pref |-> FALSE, nextf |-> 1, nextc |-> 1, nset |-> 0,
+                  cw |-> cfg.fc.cw, border |-> <<>>, nwu |-> 0]   \* connection window, key order of stream_buffers
         /\ mon = MonInit /\ obs = <<>>
 
 Ended == obs # <<>> /\ obs[Len(obs)].k = "end"
@@ -63,7 +75,7 @@ T == [t |-> "T", end |-> FALSE, d |-> <<>>]
 E == [t |-> "E", end |-> FALSE, d |-> <<>>]
 X == [t |-> "X", end |-> FALSE, d |-> <<>>]
 
-ReqBody(i, n) == [k \in 1..n |-> 10 * i + (k - 1)]
+ReqBody(i, n) == [k \in 1..(n * cfg.fc.chunk) |-> 10 * i + ((k - 1) \div cfg.fc.chunk)]
 RespId(j, k) == 130 + 10 * (j - 1) + k
 
 \* ---- Http2Client ----
@@ -128,30 +140,76 @@ Release(w, i, evs) ==
 \* ---- Http2Server: sending to the client ----
 OpenForUsC(s) == s.cout \notin {"ended", "rst"} /\ s.cph # "rst"
 ClosedC(s) == s.cout = "rst" \/ s.cph = "rst" \/ (s.cout = "ended" /\ s.cph = "ended")
+\* ---- BufferedH2Connection towards the client (_http_h2.py) ----
+Min2w(w, i) == Min2(w.st[i].sw, w.mux.cw)                    \* local_flow_control_window = min(stream, connection)
+DropB(q, i) == SelectSeq(q, LAMBDA y : y # i)
+\* bytes (and END_STREAM) that really go out: decoded by the client peer
+Wire(w, i, d, end) ==
+  [w EXCEPT !.st[i].sw = @ - Len(d), !.mux.cw = @ - Len(d), !.st[i].cend = @ \/ end,
+            !.out = @ \o (IF d # <<>> THEN <<[k |-> "c_rdata", s |-> i, d |-> d]>> ELSE <<>>)
+                      \o (IF end THEN <<[k |-> "c_rend", s |-> i]>> ELSE <<>>)]
+\* send_data: append behind parked data; else send what fits and park the rest
+SendData(w, i, d, end) ==
+  IF w.st[i].park # <<>> THEN [w EXCEPT !.st[i].park = Append(@, [d |-> d, end |-> end])]
+  ELSE LET a == Min2w(w, i) IN
+       IF Len(d) <= a THEN Wire(w, i, d, end)
+       ELSE LET w1 == IF a > 0 THEN Wire(w, i, SubSeq(d, 1, a), FALSE) ELSE w
+            IN [w1 EXCEPT !.st[i].park = <<[d |-> SubSeq(d, a + 1, Len(d)), end |-> end]>>,
+                          !.mux.border = Append(DropB(@, i), i)]
+\* stream_window_updated: returns [w, any]
+RECURSIVE FlushLoop(_, _, _, _)
+FlushLoop(w, i, a, any) ==
+  IF a <= 0 \/ w.st[i].park = <<>> THEN [w |-> w, any |-> any]
+  ELSE LET c == Head(w.st[i].park)
+           fits == Len(c.d) <= a
+           w1 == IF fits THEN [Wire(w, i, c.d, c.end) EXCEPT !.st[i].park = Tail(@)]
+                 ELSE [Wire(w, i, SubSeq(c.d, 1, a), FALSE) EXCEPT
+                          !.st[i].park = <<[d |-> SubSeq(c.d, a + 1, Len(c.d)), end |-> c.end]>> \o Tail(@)]   \* appendleft
+           sent == IF fits THEN Len(c.d) ELSE a
+           w2 == IF w1.st[i].park = <<>>
+                 THEN LET w3 == [w1 EXCEPT !.mux.border = DropB(@, i)] IN
+                      IF w3.st[i].ptrl                                            \* queued trailers follow the data
+                      THEN [w3 EXCEPT !.st[i].ptrl = FALSE, !.st[i].cend = TRUE,
+                                      !.out = @ \o <<[k |-> "c_rtrl", s |-> i, ms |-> <<w.mux.our[i]>>], [k |-> "c_rend", s |-> i]>>]
+                      ELSE w3
+                 ELSE w1
+       IN FlushLoop(w2, i, a - sent, TRUE)
+Flush(w, i) == FlushLoop(w, i, Min2w(w, i), FALSE)
+\* connection_window_updated: round robin over stream_buffers (each key is moved to the end when its turn comes)
+RECURSIVE Pass(_, _, _), ConnUpdated(_)
+Pass(w, todo, any) ==
+  IF todo = <<>> THEN [w |-> w, any |-> any, stop |-> FALSE]
+  ELSE LET i == Head(todo)
+           r == Flush([w EXCEPT !.mux.border = Append(DropB(@, i), i)], i)
+       IN IF r.any /\ r.w.mux.cw = 0 THEN [w |-> r.w, any |-> TRUE, stop |-> TRUE]
+          ELSE Pass(r.w, Tail(todo), any \/ r.any)
+ConnUpdated(w) == LET r == Pass(w, w.mux.border, FALSE) IN IF r.stop \/ ~r.any THEN r.w ELSE ConnUpdated(r.w)
+
 ToClient(w, i, ev) ==
   LET s == w.st[i]
       j == w.mux.our[i]
   IN CASE ev.t = "H" ->
             IF OpenForUsC(s)
-            THEN [w EXCEPT !.st[i].cout = IF ev.end THEN "ended" ELSE "hdr",
+            THEN [w EXCEPT !.st[i].cout = IF ev.end THEN "ended" ELSE "hdr", !.st[i].cend = ev.end,
                            !.out = @ \o <<[k |-> "c_resp", s |-> i, ms |-> <<j>>, own |-> FALSE]>>
                                      \o (IF ev.end THEN <<[k |-> "c_rend", s |-> i]>> ELSE <<>>)]
             ELSE w
-       [] ev.t = "D" -> IF OpenForUsC(s) THEN [w EXCEPT !.out = Append(@, [k |-> "c_rdata", s |-> i, d |-> ev.d])] ELSE w
-       [] ev.t = "T" -> IF OpenForUsC(s)
-                        THEN [w EXCEPT !.st[i].cout = "ended",
+       [] ev.t = "D" -> IF OpenForUsC(s) THEN SendData(w, i, ev.d, FALSE) ELSE w
+       [] ev.t = "T" -> IF ~OpenForUsC(s) THEN w                                   \* send_trailers
+                        ELSE IF s.park # <<>> THEN [w EXCEPT !.st[i].cout = "ended", !.st[i].ptrl = TRUE]
+                        ELSE [w EXCEPT !.st[i].cout = "ended", !.st[i].cend = TRUE,
                                        !.out = @ \o <<[k |-> "c_rtrl", s |-> i, ms |-> <<j>>], [k |-> "c_rend", s |-> i]>>]
-                        ELSE w
-       [] ev.t = "E" -> IF OpenForUsC(s)
-                        THEN [w EXCEPT !.st[i].cout = "ended", !.out = Append(@, [k |-> "c_rend", s |-> i])]
+       [] ev.t = "E" -> IF OpenForUsC(s)                                           \* end_stream
+                        THEN SendData([w EXCEPT !.st[i].cout = "ended"], i, <<>>, TRUE)
                         ELSE w
        [] ev.t = "X" ->        \* ResponseProtocolError: an error page if nothing was sent yet, else RST_STREAM
             IF ClosedC(s) THEN w
             ELSE IF OpenForUsC(s) /\ s.cout = "none"
-            THEN [w EXCEPT !.st[i].cout = "ended",
+            THEN [w EXCEPT !.st[i].cout = "ended", !.st[i].cend = TRUE,
                            !.out = @ \o <<[k |-> "c_resp", s |-> i, ms |-> <<>>, own |-> TRUE],
                                           [k |-> "c_rdata", s |-> i, d |-> <<>>], [k |-> "c_rend", s |-> i]>>]
-            ELSE [w EXCEPT !.st[i].cout = "rst", !.out = Append(@, [k |-> "c_rrst", s |-> i])]
+            ELSE [w EXCEPT !.st[i].cout = "rst", !.st[i].park = <<>>, !.mux.border = DropB(@, i),
+                           !.out = Append(@, [k |-> "c_rrst", s |-> i])]
 
 \* HttpStream.flow_done: DropStream, then the delayed ResponseEndOfMessage
 FlowDone(w, i) == ToClient([w EXCEPT !.st[i].live = FALSE], i, E)
@@ -185,7 +243,7 @@ CBody(i, kind) ==
   /\ LET s == st[i]
          isData == kind \in {"data", "data_end"}
          ends == kind # "data"
-         d == <<10 * i + s.cn>>
+         d == Rep(10 * i + s.cn, cfg.fc.chunk)
          cn2 == IF isData THEN s.cn + 1 ELSE s.cn
          trl2 == kind = "trl"
          body == ReqBody(i, cn2)
@@ -236,7 +294,7 @@ SResp(j, kind) ==
          isHdr == kind \in {"hdr", "hdr_end"}
          isData == kind \in {"data", "data_end"}
          ends == kind \in {"hdr_end", "data_end", "trl", "end"}
-         d == <<RespId(j, sv[j].sn)>>
+         d == Rep(RespId(j, sv[j].sn), cfg.fc.chunk)
          trl2 == kind = "trl"
          stim == <<[k |-> "in", side |-> "s"]>> \o (IF isHdr THEN <<[k |-> "r_hdr", t |-> j]>> ELSE <<>>)
                    \o (IF isData THEN <<[k |-> "r_data", t |-> j, d |-> d]>> ELSE <<>>)
@@ -288,13 +346,30 @@ Settings(n) ==
   /\ Commit(Resume([W0(<<[k |-> "in", side |-> "s"], [k |-> "r_settings", max |-> n]>>) EXCEPT
                        !.mux.pref = TRUE, !.mux.prov = FALSE, !.mux.limit = n, !.mux.nset = @ + 1]))
 
-Finish == /\ Live /\ UNCHANGED <<cfg, st, sv, mux>> /\ Emit(<<[k |-> "end"]>>)
+\* the client grants flow-control credit: WINDOW_UPDATE on stream i (i = 0: on the connection)
+CWu(i, n) ==
+  /\ Live /\ n \in FC.wus /\ mux.nwu < FC.maxwu
+  /\ IF i = 0
+     THEN Commit(ConnUpdated([W0(<<[k |-> "in", side |-> "c"], [k |-> "c_wu", s |-> 0]>>) EXCEPT !.mux.cw = @ + n, !.mux.nwu = @ + 1]))
+     ELSE /\ i \in CS /\ st[i].cph \notin {"idle", "rst"} /\ ~st[i].cend /\ st[i].cout # "rst"     \* open at the client peer
+          /\ Commit(Flush([W0(<<[k |-> "in", side |-> "c"], [k |-> "c_wu", s |-> i]>>) EXCEPT !.st[i].sw = @ + n, !.mux.nwu = @ + 1], i).w)
+
+\* end of the scenario; with flow control the harness first opens all windows: a connection-level WINDOW_UPDATE, then
+\* SETTINGS_INITIAL_WINDOW_SIZE (both end in connection_window_updated)
+Finish ==
+  /\ Live /\ UNCHANGED cfg
+  /\ IF FC.sw >= Big THEN UNCHANGED <<st, sv, mux>> /\ Emit(<<[k |-> "end"]>>)
+     ELSE LET w1 == ConnUpdated([W0(<<[k |-> "in", side |-> "c"], [k |-> "c_wu", s |-> 0]>>) EXCEPT !.mux.cw = @ + Big])
+              w2 == ConnUpdated([w1 EXCEPT !.st = [i \in CS |-> [w1.st[i] EXCEPT !.sw = @ + Big]],
+                                           !.out = @ \o <<[k |-> "in", side |-> "c"], [k |-> "c_wu", s |-> 0]>>])
+          IN st' = w2.st /\ sv' = w2.sv /\ mux' = w2.mux /\ Emit(Append(w2.out, [k |-> "end"]))
 
 Next == \/ \E i \in CS, e \in BOOLEAN : CHdr(i, e)
         \/ \E i \in CS, kind \in {"data", "data_end", "trl", "end"} : CBody(i, kind)
         \/ \E i \in CS : CRst(i)
         \/ \E j \in CS, kind \in {"hdr", "hdr_end", "data", "data_end", "trl", "end", "rst"} : SResp(j, kind)
         \/ \E n \in 1..N : Settings(n)
+        \/ \E i \in 0..N, n \in 1..N : CWu(i, n)
         \/ Finish
 Spec == Init /\ [][Next]_vars
 Report == mon.bad # <<>> => PrintT(<<"BAD", mon.bad>>)
